@@ -22,6 +22,7 @@
 #include <vp/xplore.hpp>
 
 #include <covfie/core/backend/transformer/affine.hpp>
+#include <covfie/core/backend/transformer/backup.hpp>
 #include <covfie/core/backend/transformer/clamp.hpp>
 #include <covfie/core/backend/transformer/linear.hpp>
 #include <covfie/core/backend/transformer/nearest_neighbour.hpp>
@@ -118,8 +119,8 @@ extern "C" __attribute__((no_sanitize_coverage)) void __sanitizer_cov_trace_pc()
 }
 #endif
 
-enum Interp { DIRECT, NN, LINEAR, CLAMPED, AFFINE_NN };
-static const char * IN[] = {"direct", "nn", "linear", "clamp", "affine_nn"};
+enum Interp { DIRECT, NN, LINEAR, CLAMPED, AFFINE_NN, BACKUP_ST };
+static const char * IN[] = {"direct", "nn", "linear", "clamp", "affine_nn", "backup"};
 
 template <class L, size_t N, int I>
 struct Cfg {
@@ -130,8 +131,13 @@ struct Cfg {
     using B = std::conditional_t<I == DIRECT, St,
               std::conditional_t<I == NN, NNt,
               std::conditional_t<I == LINEAR, cb::linear<St, cv::vector_d<float, N>>,
-              std::conditional_t<I == CLAMPED, cb::clamp<St>, cb::affine<NNt>>>>>;
-    using coord_scalar = std::conditional_t<(I == DIRECT || I == CLAMPED), std::size_t, float>;
+              std::conditional_t<I == CLAMPED, cb::clamp<St>,
+              std::conditional_t<I == BACKUP_ST, cb::backup<St>, cb::affine<NNt>>>>>>;
+    using coord_scalar = std::conditional_t<(I == DIRECT || I == CLAMPED || I == BACKUP_ST), std::size_t, float>;
+    // BACKUP_ST: region [2, 6] on every axis of the 8^N field. Readers look up coordinates outside the region (answered
+    // with the default: no storage cell is needed for them) and inside it (components 3, 4); the writers own cells on the
+    // border of the region, (2|5|6, 2, 2, ..), and write them through the storage view beneath the backup layer
+    static constexpr bool writes_through_inner_view = (I == BACKUP_ST);
     using coord_t = covfie::array::array<coord_scalar, N>;
     static constexpr size_t EXT = 8;
     static std::string name()
@@ -151,6 +157,15 @@ struct Cfg {
                 cc.min[k] = 0;
                 cc.max[k] = EXT - 1;
             }
+            typename B::owning_data_t o(cc, typename St::owning_data_t(st.backend()));
+            return covfie::field<B>(covfie::make_parameter_pack(std::move(o)));
+        } else if constexpr (I == BACKUP_ST) {
+            typename B::configuration_t cc;
+            for (size_t k = 0; k < N; ++k) {
+                cc.min[k] = 2;
+                cc.max[k] = 6;
+            }
+            cc.default_value[0] = -5.f;
             typename B::owning_data_t o(cc, typename St::owning_data_t(st.backend()));
             return covfie::field<B>(covfie::make_parameter_pack(std::move(o)));
         } else if constexpr (I == AFFINE_NN) {
@@ -207,6 +222,11 @@ struct Cfg {
     static coord_t reader_coord(int k)
     {
         coord_t c;
+        if constexpr (I == BACKUP_ST) {
+            // even k: outside the region (components 0 / 1); odd k: inside (components 3 / 4)
+            for (size_t a = 0; a < N; ++a) c[a] = static_cast<coord_scalar>((k % 2 ? 3 : 0) + ((k / 2 + a) % 2));
+            return c;
+        }
         for (size_t a = 0; a < N; ++a) {
             float v = static_cast<float>((k + a) % 2) + (I == LINEAR ? 0.25f * static_cast<float>(1 + (k + a) % 3) : ((I == NN || I == AFFINE_NN) ? 0.25f : 0.f));
             c[a] = static_cast<coord_scalar>(v);
@@ -217,6 +237,12 @@ struct Cfg {
     {
         // readers never reach index 3 (linear reads up to floor(1.75)+1 = 2); writers own the cells (4+k%4, 3, 3, ..)
         coord_t c;
+        if constexpr (I == BACKUP_ST) {
+            static const int first[4] = {2, 5, 6, 5};
+            for (size_t a = 0; a < N; ++a) c[a] = static_cast<coord_scalar>(2);
+            c[0] = static_cast<coord_scalar>(first[k % 4]);
+            return c;
+        }
         for (size_t a = 0; a < N; ++a) c[a] = static_cast<coord_scalar>(3);
         c[0] = static_cast<coord_scalar>(4 + k % 4);
         return c;
@@ -235,7 +261,12 @@ static void run_program_thread(const typename covfie::field_view<typename C::B> 
 {
     for (const Action & a : acts) {
         if (a.write) {
-            if constexpr (std::is_reference_v<typename covfie::field_view<typename C::B>::output_t>) {
+            if constexpr (C::writes_through_inner_view) {
+                tl_write_intent = true;
+                auto w = view;  // field_view::backend() is a non-const member; views are value types over the same storage
+                w.backend().get_backend().at(C::writer_coord(a.k))[0] = a.v;
+                tl_write_intent = false;
+            } else if constexpr (std::is_reference_v<typename covfie::field_view<typename C::B>::output_t>) {
                 tl_write_intent = true;
                 view.at(C::writer_coord(a.k))[0] = a.v;
                 tl_write_intent = false;
@@ -407,7 +438,7 @@ static void explore_config(Report & R, const std::string & pname, const Program 
 template <class C>
 static void programs_for(Report & R, int bound, uint64_t max_sched, bool thorough)
 {
-    constexpr bool writable = std::is_reference_v<typename covfie::field_view<typename C::B>::output_t>;
+    constexpr bool writable = std::is_reference_v<typename covfie::field_view<typename C::B>::output_t> || C::writes_through_inner_view;
     Program two_one = {{{false, 0, 0}}, {{false, 1, 0}}};
     Program two_same = {{{false, 2, 0}}, {{false, 2, 0}}};
     Program three_two = {{{false, 0, 0}, {false, 3, 0}}, {{false, 1, 0}, {false, 4, 0}}, {{false, 2, 0}, {false, 0, 0}}};
@@ -447,6 +478,7 @@ static void all_interps_fn(Report & R, int bound, uint64_t max_sched)
     programs_fn<Cfg<L, N, LINEAR>>(R, bound, max_sched);
     programs_fn<Cfg<L, N, CLAMPED>>(R, bound, max_sched);
     programs_fn<Cfg<L, N, AFFINE_NN>>(R, bound, max_sched);
+    programs_fn<Cfg<L, N, BACKUP_ST>>(R, bound, max_sched);
 }
 
 template <class L, size_t N>
@@ -457,6 +489,7 @@ static void all_interps(Report & R, int bound, uint64_t max_sched, bool thorough
     programs_for<Cfg<L, N, LINEAR>>(R, bound, max_sched, thorough);
     programs_for<Cfg<L, N, CLAMPED>>(R, bound, max_sched, thorough);
     programs_for<Cfg<L, N, AFFINE_NN>>(R, bound, max_sched, thorough);
+    programs_for<Cfg<L, N, BACKUP_ST>>(R, bound, max_sched, thorough);
     if constexpr (N == 3 && std::is_same_v<L, L_strided>) {
         // the generic (N >= 4) path of the interpolator: two 4-D lookups have 2 x 17 scheduling points, explored with the bound
         Program two_one = {{{false, 0, 0}}, {{false, 1, 0}}};
@@ -723,7 +756,12 @@ static void free_run(Report & R, int T)
             for (int rep = 0; rep < 200; ++rep) {
                 for (int k = 0; k < 6; ++k)
                     if (v.at(C::reader_coord(k))[0] != expect[k]) ++bad[t];
-                if constexpr (writable) {
+                if constexpr (C::writes_through_inner_view) {
+                    if (t < 3) {
+                        view_t w = v;
+                        w.backend().get_backend().at(C::writer_coord(t))[0] = static_cast<float>(rep);  // writer_coord(0..2) are distinct cells
+                    }
+                } else if constexpr (writable) {
                     if (t < 4) v.at(C::writer_coord(t))[0] = static_cast<float>(rep);  // one distinct cell per writer thread
                 }
             }
@@ -764,6 +802,7 @@ static void free_interps(Report & R, int T)
     free_run<Cfg<L, N, LINEAR>>(R, T);
     free_run<Cfg<L, N, CLAMPED>>(R, T);
     free_run<Cfg<L, N, AFFINE_NN>>(R, T);
+    free_run<Cfg<L, N, BACKUP_ST>>(R, T);
     if constexpr (N == 3 && std::is_same_v<L, L_strided>) free_run<Cfg<L, 4, LINEAR>>(R, T);
 }
 
